@@ -40,16 +40,16 @@ pub fn plan(tier: &str) -> (PropMeta, Vec<Job>) {
         jobs.push(Job {
             prop: "C17".into(),
             tier: tier.into(),
-            spec: serde_json::to_value(SelJob { kind: "balanced".into(), count: c, family: String::new(), depth: if quick { 7 } else { 9 } }).unwrap(),
+            spec: serde_json::to_value(SelJob { kind: "balanced".into(), count: c, family: String::new(), depth: if quick { 6 } else { 8 } }).unwrap(),
         });
     }
     let meta = PropMeta {
         id: "C17",
         level: "exploration",
         rule: format!(
-            "exhaustive input enumeration against the real System: for every partition count in {counts:?}: every 1-byte key (256), every 2-byte key (65 536) and for every key length 1..=255 the fills 0x00, 0xFF and counting bytes, each sent twice as a 2-message batch (placement read from the per-partition message counters after every send and from full polls of every partition at the end); partition ids 0, 1, count, count+1, u32::MAX; and every history of balanced sends interleaved with create/delete-partition up to the stated depth. A case is non-trivial and distinct by (partition count, key bytes / partition id / history); it counts once per distinct input",
+            "exhaustive input enumeration against the real System: for every partition count in {counts:?}: every 1-byte key (256), every 2-byte key (65 536) and for every key length 1..=255 the fills 0x00, 0xFF and counting bytes, each sent twice as a 2-message batch (placement read from the per-partition message counters after every send and from full polls of every partition at the end); partition ids 0, 1, count, count+1, u32::MAX; and every history of balanced sends and keyed sends (three keys) interleaved with create/delete-partition up to the stated depth (a key must go to an existing partition, and to the same one for the same count in every history). A case is non-trivial and distinct by (partition count, key bytes / partition id / history); it counts once per distinct input",
         ),
-        bounds: json!({"partition_counts": counts, "balanced_history_depth": if quick { 7 } else { 9 }}),
+        bounds: json!({"partition_counts": counts, "balanced_history_depth": if quick { 6 } else { 8 }}),
         assumptions: vec![
             "sends go through System::append_messages (what the handlers call); no concurrent sender".into(),
             "placement after each single send is read from the partitions' message counters; the final full polls confirm every message sits in the partition recorded for it and nowhere else".into(),
@@ -313,8 +313,13 @@ pub fn run_job(job: &Job) -> JobResult {
             w.finish();
         }
         _ => {
-            // balanced sends interleaved with partition creation / deletion: 0 = send, 1 = create, 2 = delete
-            let n = 3usize;
+            // balanced and keyed sends interleaved with partition creation / deletion:
+            // 0 = balanced send, 1 = create, 2 = delete, 3 = send with a messages key (three keys take turns)
+            let n = 4usize;
+            let keys: [Vec<u8>; 3] = [2u32.to_le_bytes().to_vec(), b"a".to_vec(), b"key-17".to_vec()];
+            // (partition count, key) -> partition, as first observed anywhere in this job: the same key and
+            // count must always give the same partition, whatever happened to the topic before
+            let mut placement: std::collections::HashMap<(u32, Vec<u8>), u32> = std::collections::HashMap::new();
             let mut idx = vec![0usize; sj.depth];
             loop {
                 let mut w = World::new_with(&scratch, &tpl, Transports::NONE).expect("world");
@@ -327,7 +332,7 @@ pub fn run_job(job: &Job) -> JobResult {
                 res.nontrivial_keys.push(hash64(format!("{}:{idx:?}", sj.count).as_bytes()));
                 let mut parts = sj.count;
                 let mut run: Vec<u32> = Vec::new();
-                let hist: Vec<&str> = idx.iter().map(|i| ["send", "mkP", "rmP"][*i]).collect();
+                let hist: Vec<&str> = idx.iter().map(|i| ["send", "mkP", "rmP", "keyed-send"][*i]).collect();
                 for (step, op) in idx.iter().enumerate() {
                     res.transitions += 1;
                     let mut bad = None;
@@ -352,6 +357,27 @@ pub fn run_job(job: &Job) -> JobResult {
                                         run.push(p);
                                     }
                                     (r, d) => bad = Some(format!("balanced send on {parts} partitions answered {r:?}, counters changed by {d:?}")),
+                                }
+                            }
+                        }
+                        3 => {
+                            let key = keys[step % keys.len()].clone();
+                            let before = counters(&mut w);
+                            let r = send(&mut w, Partitioning::messages_key(&key).unwrap(), &[format!("k{step}").into_bytes()]);
+                            let after = counters(&mut w);
+                            if parts == 0 {
+                                if r.is_ok() {
+                                    bad = Some("keyed send to a topic without partitions was acknowledged".to_string());
+                                }
+                            } else {
+                                match (r, delta(&before, &after)) {
+                                    (Ok(()), Ok(Some((p, 1)))) if p >= 1 && p <= parts => {
+                                        let first = *placement.entry((parts, key.clone())).or_insert(p);
+                                        if first != p {
+                                            bad = Some(format!("key {key:?} with {parts} partitions went to partition {p} here and to partition {first} in another history"));
+                                        }
+                                    }
+                                    (r, d) => bad = Some(format!("keyed send (key {key:?}) on {parts} partitions answered {r:?}, counters changed by {d:?}")),
                                 }
                             }
                         }
